@@ -654,7 +654,7 @@ func ruleEF7() Rule {
 					}
 				case *ast.AssignStmt:
 					for i, l := range n.Lhs {
-						if id, ok := l.(*ast.Ident); ok && id.Name == "err" && i < len(n.Rhs) {
+						if id, ok := l.(*ast.Ident); ok && info.Uses[id] != nil && isErrorType(info.Uses[id].Type()) && i < len(n.Rhs) {
 							key := f.Name + "|err=" + exprStr(n.Rhs[i])
 							if fieldSel(info, n.Rhs[i], "interp", "lexer", "err") {
 								rr.OK(f, key, n.Pos(), "slot", "assigns the lexer's error slot")
